@@ -153,6 +153,18 @@ func C12(tier common.Tier) int {
 								vo := e1.Observe(fam, v)
 								compareLayout(run, fam.Name, "nested-ignore/"+lt.name, histString(h), pkgOf(inU), mix.String(), ibo.BySite, vo.BySite, ibo.Crash, vo.Crash, vo.Text, "")
 							}
+							// the text-level layouts on the same base: blank lines and an ordinary comment also go between
+							// the header comment and the package clause
+							for _, tl := range []struct {
+								name   string
+								blank  bool
+								mangle int
+							}{{"blank+comments", true, 0}, {"whitespace", false, 1}, {"blank+whitespace", true, 1}} {
+								v := *ib
+								v.BlankLines, v.Mangle = tl.blank, tl.mangle
+								vo := e1.Observe(fam, &v)
+								compareLayout(run, fam.Name, "nested-ignore/"+tl.name, histString(h), pkgOf(inU), mix.String(), ibo.BySite, vo.BySite, ibo.Crash, vo.Crash, vo.Text, "")
+							}
 						}
 						if idx%503 == 1 {
 							run.Sample(map[string]any{"family": fam.Name, "base": e1.SpecJSON(base), "transformations": len(layouts(len(h), pairs))})
